@@ -294,8 +294,8 @@ Proof.
   apply Matches_seq_inv in Mrun as (s2 & M2 & Mrun).
   apply Matches_seq_inv in Mrun as (s3 & M3 & M4).
   (* optional backslash *)
-  apply Matches_rep_inv in M1. pose proof (Iter_step text _ _ _ M1 W0) as [W1 _].
-  apply Iter_set in M1 as (bs & C1 & Hbs & K1).
+  apply Matches_rep_inv in M1 as (k1 & M1 & _). pose proof (Iter_step text _ _ _ _ M1 W0) as [W1 _].
+  apply Iter_set in M1 as (bs & C1 & Hbs & K1 & _).
   (* group 1: one of the quote strings *)
   destruct (Matches_grp_text text _ _ _ _ M2 W1) as (s2' & g1 & q & Mh & C2 & K2 & T1 & R2 & W2).
   unfold quote_alts in Mh. rewrite <- map_map in Mh. apply Matches_ralt_rstr in Mh as (q' & Hq' & Cq' & Kq').
